@@ -103,6 +103,43 @@ TLinInterp == Rec.e = "LinInterp" /\
           /\ Rec.r8 * (Rec.x1 - Rec.x0)
                = 8 * (Rec.y0 * (Rec.x1 - Rec.x0) + (Rec.y1 - Rec.y0) * (Rec.x - Rec.x0)))
 
+\* ---- anchored utilities recorded by "valgo misc2" ----------------------------------
+TRagged == Rec.e = "Ragged" /\
+   Simple(LET off == Rec.offsets IN
+          /\ off = OffsetsOf(Rec.sizes)
+          /\ Len(Rec.map) = off[Len(off)]
+          /\ \A k \in DOMAIN Rec.map :
+                LET m == Rec.map[k] IN
+                /\ m.i = k - 1
+                /\ m.c = RaggedCoords(off, m.i)
+                /\ m.back = m.i)
+TSpan == Rec.e = "Span" /\
+   Simple(LET d == SpanData(Rec.n) IN
+          /\ Rec.size = Rec.n /\ Rec.empty = (Rec.n = 0)
+          /\ Rec.rest = SubSpan(d, Rec.off, Rec.n - Rec.off)
+          /\ Rec.first = SubSpan(d, 0, Rec.off)
+          /\ Rec.last = SubSpan(d, Rec.n - Rec.off, Rec.off)
+          /\ Len(Rec.subs) = Rec.n - Rec.off + 1
+          /\ \A c \in DOMAIN Rec.subs : Rec.subs[c] = SubSpan(d, Rec.off, c - 1)
+          /\ (Rec.n > 0 => Rec.front = d[1] /\ Rec.back = d[Rec.n]))
+TSpanStatic == Rec.e = "SpanStatic" /\
+   Simple(LET d == SpanData(Rec.n) IN
+          /\ Rec.first2 = SubSpan(d, 0, 2) /\ Rec.last2 = SubSpan(d, Rec.n - 2, 2)
+          /\ Rec.sub13 = SubSpan(d, 1, 3) /\ Rec.rest2 = SubSpan(d, 2, Rec.n - 2)
+          /\ Rec.first0 = <<>> /\ Rec.last5 = d /\ Rec.arr = d)
+TTwod ==
+  /\ Rec.e = "Twod"
+  /\ SortedBy(Rec.x, LT) /\ SortedBy(Rec.y, LT)
+  /\ Len(Rec.v) = Len(Rec.x) /\ \A i \in DOMAIN Rec.v : Len(Rec.v[i]) = Len(Rec.y)
+  /\ Len(Rec.qs) = 16 * (Len(Rec.x) - 1) * (Len(Rec.y) - 1)      \* every quarter point of every cell
+  /\ \A i \in DOMAIN Rec.qs : TwodOK(Rec.x, Rec.y, Rec.v, Rec.qs[i]) = TRUE
+  /\ ncase' = ncase + Len(Rec.qs)
+  /\ UNCHANGED <<prev, dev>>
+TDiffsq == Rec.e = "Diffsq" /\ Simple(Rec.r = Rec.a * Rec.a - Rec.b * Rec.b /\ Rec.ri = Rec.r)
+TFma == Rec.e = "Fma" /\ Simple(Rec.r = Rec.a * Rec.b + Rec.c /\ Rec.ri = Rec.r)
+TRsqrt == Rec.e = "Rsqrt" /\ Simple(Rec.one /\ Rec.onef)
+TFastPow == Rec.e = "FastPow" /\ Simple(Rec.near /\ Rec.r = IPow(Rec.a, Rec.n))
+
 \* ---- grids ------------------------------------------------------------------
 \* f0: fraction >= 0; f1: fraction <= 1 (the correctly rounded value of a ratio just below
 \* one may be 1.0); fz: fraction = 0 exactly at a knot (the converse is not required: one
@@ -134,7 +171,8 @@ Next ==
   /\ l' = l + 1
   /\ \/ TSeq \/ TCeilDiv \/ TIpow \/ TSignum \/ TNegate \/ TEumod \/ TClamp \/ TNonneg
      \/ TMinMax \/ TLocalWork \/ TRange \/ TStepRange \/ TCountStep \/ THyperslab
-     \/ TLinInterp \/ TGrid
+     \/ TLinInterp \/ TGrid \/ TRagged \/ TSpan \/ TSpanStatic \/ TTwod
+     \/ TDiffsq \/ TFma \/ TRsqrt \/ TFastPow
 Spec == Init /\ [][Next]_vars
 
 \* after the last record: exhaustive enumeration must have ended on the last sequence
